@@ -39,12 +39,17 @@ Ltac level_prefix ln f k lvl E1 :=
   match goal with H : forall s, w_pint _ s = parse_int _ _ s |- _ => rewrite H end;
   match goal with |- context [parse_int ?a ?b f] => destruct (parse_int a b f) as [lvl|] end;
   cbn [x_opt xthen xbind x_isa rt_isa]; [|reflexivity];
-  cbn [dy_lt xbind]; destruct (lvl <? 0)%Z eqn:E1; cbn [xbind x_isa rt_isa]; [reflexivity|].
+  (* `level < 0 or ...` / `not 0 <= level <= ...` (the n-gram may be read before the test) *)
+  rewrite ?getitem_1; cbn [dy_lt dy_le xbind];
+  try replace (0 <=? lvl)%Z with (negb (lvl <? 0)%Z) by (first [apply Z.leb_antisym | symmetry; apply Z.leb_antisym]);
+  destruct (lvl <? 0)%Z eqn:E1; cbn [negb xbind xthen x_isa rt_isa]; [reflexivity|].
 
 (* `or level > grammar['max_level']` *)
 Ltac range_check Hmax lvl E2 :=
-  unfold dy_getitem at 1; cbn [is_key]; rewrite dfind_dput_other by reflexivity; rewrite Hmax;
-  cbn [x_opt xthen dy_gt dy_lt xbind]; destruct (10 <? lvl)%Z eqn:E2; cbn [xbind x_isa rt_isa]; [reflexivity|].
+  try (unfold dy_getitem at 1; cbn [is_key]; rewrite dfind_dput_other by reflexivity; rewrite Hmax);
+  cbn [x_opt xthen dy_gt dy_lt dy_le xbind];
+  try replace (lvl <=? 10)%Z with (negb (10 <? lvl)%Z) by (first [apply Z.leb_antisym | symmetry; apply Z.leb_antisym]);
+  destruct (10 <? lvl)%Z eqn:E2; cbn [negb xbind xthen x_isa rt_isa]; [reflexivity|].
 
 Section OmenGuesser.
 Context (fo : fops) {C SS : Type} (W : world fo C SS).
@@ -176,6 +181,19 @@ Proof.
   reflexivity.
 Qed.
 
+(* the statements before the file is opened: stores and lookups in the grammar dict (grammar['max_level'] read in
+   place or into a local first), the loop that creates the level lists, the path *)
+Ltac run_pre Hmax Henc :=
+  repeat first
+    [ progress cbn [xbind xthen dy_setitem is_key dy_eq str_eqb k_ip k_ep k_cp k_ln N.eqb Pos.eqb andb rt_join x_opt
+                    dy_add dy_range dy_iter Z.add Pos.add Pos.succ dy_scalar dy_require_dict dy_path_join strs_of option_map]
+    | erewrite getitem_dict_found by
+        (try reflexivity; first [ exact Hmax | exact Henc
+                                | rewrite dfind_dput_other by reflexivity; first [exact Hmax | exact Henc]
+                                | apply dfind_dput_same; reflexivity ])
+    | rewrite init_levels by reflexivity ].
+
+
 Lemma omen_load_ngrams_ip dir file (g : list (val * val)) enc :
   dfind (VStr k_alphabet_encoding) g = Some (VStr enc) ->
   dfind (VStr k_max_level) g = Some (VInt 10) ->
@@ -189,12 +207,7 @@ Lemma omen_load_ngrams_ip dir file (g : list (val * val)) enc :
   end.
 Proof.
   intros Henc Hmax. cbv beta zeta delta [py_omen_load_ngrams]. name_keys.
-  cbn [xbind dy_setitem is_key dy_eq str_eqb k_ip N.eqb Pos.eqb andb rt_join].
-  unfold dy_getitem at 1. cbn [is_key]. rewrite dfind_dput_other by reflexivity. rewrite Hmax.
-  cbn [x_opt xbind dy_add dy_range dy_iter Z.add Pos.add Pos.succ].
-  rewrite init_levels by reflexivity.
-  cbn [dy_path_join strs_of option_map xbind].
-  unfold dy_getitem at 1. cbn [is_key]. rewrite dfind_dput_other by reflexivity. rewrite Henc.
+  run_pre Hmax Henc.
   cbn [x_opt xbind dy_open]. unfold pstr in *.
   match goal with |- _ = match ?o with _ => _ end => destruct o as [lines|e] end;
     cbn [xthen xbind]; [|now rewrite !if_same].
@@ -211,7 +224,7 @@ Proof.
     destruct (level_in_range lvl E1 E2) as (j & -> & Hj).
     erewrite upd_item_found by (try reflexivity; apply dfind_dput_same; reflexivity).
     erewrite upd_item_found by (try reflexivity; apply dfind_level_dict; exact Hj).
-    rewrite getitem_1. cbn [xthen dy_append enc_strs xbind].
+    rewrite ?getitem_1. cbn [xthen dy_append enc_strs xbind].
     rewrite dput_level_dict by (try exact Hj; apply seq_NoDup).
     rewrite dput_dput_same by reflexivity. do 4 f_equal.
     apply level_dict_ext. intros l Hl. rewrite bucket_snoc. unfold enc_strs.
@@ -246,9 +259,7 @@ Lemma omen_load_ngrams_ep dir file (g : list (val * val)) enc :
   end.
 Proof.
   intros Henc Hmax. cbv beta zeta delta [py_omen_load_ngrams]. name_keys.
-  cbn [xbind dy_setitem is_key dy_eq str_eqb k_ip k_ep N.eqb Pos.eqb andb rt_join].
-  cbn [dy_path_join strs_of option_map xbind].
-  unfold dy_getitem at 1. cbn [is_key]. rewrite dfind_dput_other by reflexivity. rewrite Henc.
+  run_pre Hmax Henc.
   cbn [x_opt xbind dy_open]. unfold pstr in *.
   match goal with |- _ = match ?o with _ => _ end => destruct o as [lines|e] end;
     cbn [xthen xbind]; [|now rewrite !if_same].
@@ -259,7 +270,7 @@ Proof.
   - intros ln its. unfold items_step, level_line. level_prefix ln f k lvl E1. range_check Hmax lvl E2.
     cbn [dy_eq str_eqb k_ip k_ep N.eqb Pos.eqb andb xbind].
     erewrite upd_item_found by (try reflexivity; apply dfind_dput_same; reflexivity).
-    rewrite getitem_1. cbn [xthen enc_ep dy_setitem is_key xbind].
+    rewrite ?getitem_1. cbn [xthen enc_ep dy_setitem is_key xbind].
     rewrite dput_enc_ep, dput_dput_same by reflexivity. now rewrite ep_dict_snoc.
 Qed.
 
@@ -337,6 +348,8 @@ Proof.
   replace (Z.max 0 (-1 + Z.of_nat (length G + 1))) with (Z.of_nat (length G)) by lia.
   cbn [Z.to_nat skipn]. rewrite Z.sub_0_r, Nat2Z.id. rewrite firstn_app, firstn_all, Nat.sub_diag. cbn. apply app_nil_r.
 Qed.
+Lemma rt_slice_none_lo {X : Type} (l : list X) b : rt_slice l None b = rt_slice l (Some 0%Z) b.
+Proof. unfold rt_slice, rt_bound, rt_len. replace (0 <? 0)%Z with false by reflexivity. now replace (Z.min 0 (Z.of_nat (length l))) with 0%Z by lia. Qed.
 Lemma rt_slice_init_nil {X : Type} : rt_slice (@nil X) (Some 0%Z) (Some (-1)%Z) = [].
 Proof. reflexivity. Qed.
 
@@ -372,9 +385,7 @@ Lemma omen_load_ngrams_cp dir file (g : list (val * val)) enc :
   end.
 Proof.
   intros Henc Hmax. cbv beta zeta delta [py_omen_load_ngrams]. name_keys.
-  cbn [xbind dy_setitem is_key dy_eq str_eqb k_ip k_cp N.eqb Pos.eqb andb rt_join].
-  cbn [dy_path_join strs_of option_map xbind].
-  unfold dy_getitem at 1. cbn [is_key]. rewrite dfind_dput_other by reflexivity. rewrite Henc.
+  run_pre Hmax Henc.
   cbn [x_opt xbind dy_open]. unfold pstr in *.
   match goal with |- _ = match ?o with _ => _ end => destruct o as [lines|e] end;
     cbn [xthen xbind]; [|now rewrite !if_same].
@@ -386,23 +397,20 @@ Proof.
   - change (@enc_cp (F fo) C SS []) with (@VDict (F fo) C SS []).
     intros ln d. unfold cp_items_step, level_line. level_prefix ln f k lvl E1. range_check Hmax lvl E2.
     cbn [dy_eq str_eqb k_ip k_ep k_cp N.eqb Pos.eqb andb xbind].
-    rewrite getitem_1. cbn [xbind dy_slice dy_bound xthen].
+    rewrite ?getitem_1. cbn [xbind dy_slice dy_bound xthen]. rewrite ?rt_slice_none_lo.
     unfold cp_step. cbn [fst snd].
     set (pre := rt_slice k (Some 0%Z) (Some (-1)%Z)).
-    (* search_string not in grammar[name] *)
-    unfold dy_getitem at 1. cbn [is_key]. rewrite dfind_dput_same by reflexivity. cbn [x_opt xbind].
+    (* search_string not in grammar[name]  /  grammar[name].setdefault(search_string, {}) *)
+    erewrite getitem_dict_found by (try reflexivity; apply dfind_dput_same; reflexivity). cbn [xbind].
+    try (unfold enc_cp at 1; progress cbn [dy_require_dict xbind];
+         try (erewrite getitem_dict_found by (try reflexivity; apply dfind_dput_same; reflexivity)); cbn [xbind]).
     unfold enc_cp at 1. cbn [dy_contains is_key xbind]. rewrite dfind_encl.
+    match goal with |- context [@rt_join ?A ?B ?f ?K] =>
     assert (P1 : exists d1 m1, cget pre d1 = Some m1 /\
                m1 = match cget pre d with Some m => m | None => [] end /\
                d1 = cset pre m1 d /\
-               rt_join (fun k34 => if negb (match option_map (@enc_zdict (F fo) C SS) (cget pre d) with Some _ => true | None => false end)
-                                   then xbind (dy_upd_item (w_cfg W) (VDict (dput (VStr k_cp) (enc_cp d) g)) (VStr k_cp)
-                                                 (fun u35 => dy_setitem u35 (VStr pre) (VDict [])))
-                                              (fun e => FRet (if x_isa (XC CIOError) e then XFail e else if x_isa (XC CValueError) e then XFail e
-                                                              else if x_isa (XC CException) e then XFail e else XFail e))
-                                              (fun v_grammar => k34 v_grammar)
-                                   else k34 (VDict (dput (VStr k_cp) (enc_cp d) g))) =
-               (fun K : val -> fctl (xres (val * val)) val => K (VDict (dput (VStr k_cp) (enc_cp d1) g)))).
+               @rt_join A B f =
+               (fun K0 : val -> fctl (xres (val * val)) val => K0 (VDict (dput (VStr k_cp) (enc_cp d1) g)))) end.
     { destruct (cget pre d) as [m|] eqn:EC; cbn [option_map negb].
       - exists d, m. split; [exact EC|]. split; [reflexivity|]. split; [now rewrite cset_same | reflexivity].
       - exists (cset pre [] d), []. split; [apply cget_cset|]. split; [reflexivity|]. split; [reflexivity|].
@@ -415,17 +423,12 @@ Proof.
     unfold dy_getitem at 1. cbn [is_key]. rewrite dfind_dput_same by reflexivity. cbn [x_opt xbind].
     unfold enc_cp at 1. unfold dy_getitem at 1. cbn [is_key]. rewrite dfind_encl, Hc1. cbn [option_map x_opt xbind].
     unfold enc_zdict at 1. cbn [dy_contains is_key xbind]. rewrite dfind_encz.
+    match goal with |- context [@rt_join ?A ?B ?f ?K] =>
     assert (P2 : exists d2 m2 cs, cget pre d2 = Some m2 /\ zget lvl m2 = Some cs /\
                cs = match zget lvl m1 with Some c0 => c0 | None => [] end /\
                m2 = zset lvl cs m1 /\ d2 = cset pre m2 d1 /\
-               rt_join (fun k39 => if negb (match option_map (@enc_chars (F fo) C SS) (zget lvl m1) with Some _ => true | None => false end)
-                                   then xbind (dy_upd_item (w_cfg W) (VDict (dput (VStr k_cp) (enc_cp d1) g)) (VStr k_cp)
-                                                 (fun u41 => dy_upd_item (w_cfg W) u41 (VStr pre) (fun u40 => dy_setitem u40 (VInt lvl) (VList []))))
-                                              (fun e => FRet (if x_isa (XC CIOError) e then XFail e else if x_isa (XC CValueError) e then XFail e
-                                                              else if x_isa (XC CException) e then XFail e else XFail e))
-                                              (fun v_grammar => k39 v_grammar)
-                                   else k39 (VDict (dput (VStr k_cp) (enc_cp d1) g))) =
-               (fun K : val -> fctl (xres (val * val)) val => K (VDict (dput (VStr k_cp) (enc_cp d2) g)))).
+               @rt_join A B f =
+               (fun K0 : val -> fctl (xres (val * val)) val => K0 (VDict (dput (VStr k_cp) (enc_cp d2) g)))) end.
     { destruct (zget lvl m1) as [c0|] eqn:EZ; cbn [option_map negb].
       - exists d1, m1, c0. split; [exact Hc1|]. split; [exact EZ|]. split; [reflexivity|]. split; [now rewrite zset_same|].
         split; [now rewrite cset_same | reflexivity].
@@ -513,11 +516,8 @@ Lemma omen_load_length_eq dir file (g : list (val * val)) n :
   end.
 Proof.
   intros Hmax. cbv beta zeta delta [py_omen_load_length]. name_keys.
-  cbn [xbind dy_setitem is_key].
-  unfold dy_getitem at 1. cbn [is_key]. rewrite dfind_dput_other by reflexivity. rewrite Hmax.
-  cbn [x_opt xbind dy_add dy_range dy_iter Z.add Pos.add Pos.succ].
-  rewrite init_levels by reflexivity.
-  cbn [dy_path_join strs_of option_map xbind dy_open]. unfold pstr in *.
+  run_pre Hmax Hmax.
+  cbn [x_opt xbind dy_open]. unfold pstr in *.
   match goal with |- _ = match ?o with _ => _ end => destruct o as [lines|e] end;
     cbn [xthen xbind]; [|now rewrite !if_same].
   unfold rt_for_file, rt_fopen. cbn [f_all f_rest].
@@ -527,7 +527,8 @@ Proof.
   - intros ln lv. unfold ln_step, ln_line.
     cbn [dy_rstrip strip_pred xthen xbind dy_int x_opt]. rewrite rstrip_crlf, Hpint.
     destruct (parse_int iws dz (rstrip is_crlf ln)) as [lvl|]; cbn [x_opt xthen xbind x_isa rt_isa]; [|reflexivity].
-    cbn [dy_lt xbind]. destruct (lvl <? 0)%Z eqn:E1; cbn [xbind x_isa rt_isa]; [reflexivity|].
+    cbn [dy_lt dy_le xbind]. try replace (0 <=? lvl)%Z with (negb (lvl <? 0)%Z) by (first [apply Z.leb_antisym | symmetry; apply Z.leb_antisym]).
+    destruct (lvl <? 0)%Z eqn:E1; cbn [negb xbind xthen x_isa rt_isa]; [reflexivity|].
     range_check Hmax lvl E2.
     cbn [dy_ge dy_le xbind rt_join].
     destruct (level_in_range lvl E1 E2) as (j & -> & Hj).
@@ -535,6 +536,7 @@ Proof.
     + erewrite upd_item_found by (try reflexivity; apply dfind_dput_same; reflexivity).
       erewrite upd_item_found by (try reflexivity; apply dfind_level_dict; exact Hj).
       cbn [dy_sub xthen dy_append enc_ints xbind dy_add].
+      try replace (Z.of_nat (S (length lv)) - n + 1)%Z with (Z.of_nat (S (length lv)) - (n - 1))%Z by lia.
       rewrite dput_level_dict by (try exact Hj; apply seq_NoDup).
       rewrite dput_dput_same by reflexivity. f_equal. f_equal.
       * do 3 f_equal. apply level_dict_ext. intros l Hl. rewrite lnb_snoc, E3, andb_true_r. unfold enc_ints.
@@ -666,7 +668,7 @@ Proof.
   lines_loop (fun its => sobj enc vmax (ep_dict its) [] [] (-1)) (@items_step (val * val) None) (@nil (Z * pstr)).
   { intros ln its. unfold items_step, level_line. level_prefix ln f k lvl E1.
     unfold sobj at 1. erewrite upd_attr_found by reflexivity.
-    rewrite getitem_1. cbn [xthen enc_ep dy_setitem is_key xbind]. rewrite dput_enc_ep.
+    rewrite ?getitem_1. cbn [xthen enc_ep dy_setitem is_key xbind]. rewrite dput_enc_ep.
     cbn [aput str_eqb N.eqb Pos.eqb andb k_encoding k_max_omen_level k_ip k_cp k_ln k_ngram].
     now rewrite ep_dict_snoc. }
   rewrite items_fold. destruct (level_lines iws dz None ipl) as [ip|e]; cbn [sum_bind app]; [|reflexivity].
@@ -679,7 +681,7 @@ Proof.
   lines_loop (fun its => sobj enc vmax (ep_dict ip) (ep_dict its) [] (ngf its)) (@items_step (val * val) None) (@nil (Z * pstr)).
   { intros ln its. unfold items_step, level_line. level_prefix ln f k lvl E1.
     unfold sobj at 1. erewrite upd_attr_found by reflexivity.
-    rewrite getitem_1. cbn [xthen enc_ep dy_setitem is_key xbind]. rewrite dput_enc_ep.
+    rewrite ?getitem_1. cbn [xthen enc_ep dy_setitem is_key xbind]. rewrite dput_enc_ep.
     cbn [aput str_eqb N.eqb Pos.eqb andb k_encoding k_max_omen_level k_ip k_cp k_ln k_ngram].
     erewrite getattr_found by reflexivity. cbn [xbind dy_eq]. rewrite ngf_snoc. cbn [snd].
     destruct (ngf its =? -1)%Z.
